@@ -49,7 +49,21 @@ struct Case {
     feats: Vec<&'static str>,
 }
 
+/// the component `inner` as the only item of an outer component (a nested component section):
+/// the inner component's own nested modules/components are then two levels deep and its
+/// import/export sections follow them, which a decoder must not mistake for the package's own
+fn nest(inner: &[u8]) -> Vec<u8> {
+    let mut c = wasm_encoder::Component::new();
+    c.section(&wasm_encoder::RawSection { id: wasm_encoder::ComponentSectionId::Component as u8, data: inner });
+    c.finish()
+}
+
 fn build(case: &Case) -> Result<Vec<u8>, String> {
+    if let Some(k) = case.kind.strip_suffix("-nested") {
+        let k: &'static str = if k == "wat" { "wat" } else { "wit" };
+        let inner = build(&Case { kind: k, src: case.src.clone(), feats: vec![] })?;
+        return Ok(nest(&inner));
+    }
     if case.kind == "wat" {
         wat::parse_str(&case.src).map_err(|e| format!("wat: {e}"))
     } else {
@@ -253,6 +267,14 @@ fn run_case(out: &mut Out, case: &Case) {
 }
 
 fn gen_case(r: &mut Rng) -> Case {
+    let mut c = gen_case_flat(r);
+    if r.chance(1, 6) {
+        c.kind = if c.kind == "wat" { "wat-nested" } else { "wit-nested" };
+    }
+    c
+}
+
+fn gen_case_flat(r: &mut Rng) -> Case {
     if r.chance(3, 5) {
         let cfg = GenCfg { async_funcs: r.chance(1, 4), ..GenCfg::default() };
         let (pkgs, feats) = gen_packages(r, &cfg);
@@ -308,7 +330,12 @@ fn main() {
             if parts.len() < 5 {
                 continue;
             }
-            let kind = if unesc(parts[3]) == "wat" { "wat" } else { "wit" };
+            let kind = match unesc(parts[3]).as_str() {
+                "wat" => "wat",
+                "wat-nested" => "wat-nested",
+                "wit-nested" => "wit-nested",
+                _ => "wit",
+            };
             let case = Case { kind, src: unesc(parts[4]), feats: vec![] };
             if args.extra.contains_key("minimize") {
                 for sig in failure_signatures(&case) {
